@@ -403,3 +403,7 @@ package js
 //@   requires[S] w != nil
 //@ func ArrayExpr.JSON
 //@   requires[S] w != nil
+
+// js.Parse reports a syntax error at the first byte of the token the parser stopped at: the cursor minus that token's length
+//@ func Parse
+//@   callsite parse.NewError[F,C15] @token-start: arg1 == p.l.r.pos - len(p.data)
